@@ -2,6 +2,8 @@ package main
 
 import (
 	"reflect"
+	"sync"
+	"unsafe"
 
 	"github.com/jamf/regatta/storage/logreader"
 )
@@ -31,10 +33,27 @@ func peekCache(sc *logreader.ShardCache, shard uint64) (s cacheShape) {
 	if !m.IsValid() || m.Kind() != reflect.Map {
 		return
 	}
+	// the cache is used concurrently by the engine's event goroutine and by Replicate calls: take
+	// the structure's OWN locks (SyncMap.mtx for the map, shard.mtx for the buffer) through their
+	// addresses, otherwise this peek is itself a fatal "concurrent map read and map write"
+	mapMu := v.Elem().FieldByName("mtx")
+	if !mapMu.IsValid() || !mapMu.CanAddr() || mapMu.Type() != reflect.TypeOf(sync.RWMutex{}) {
+		return
+	}
+	rw := (*sync.RWMutex)(unsafe.Pointer(mapMu.UnsafeAddr()))
+	rw.RLock()
 	sh := m.MapIndex(reflect.ValueOf(shard))
+	rw.RUnlock()
 	if !sh.IsValid() {
 		return cacheShape{OK: true, Contig: true}
 	}
+	shMu := sh.Elem().FieldByName("mtx")
+	if !shMu.IsValid() || !shMu.CanAddr() || shMu.Type() != reflect.TypeOf(sync.Mutex{}) {
+		return
+	}
+	mu := (*sync.Mutex)(unsafe.Pointer(shMu.UnsafeAddr()))
+	mu.Lock()
+	defer mu.Unlock()
 	c := sh.Elem().FieldByName("cache")
 	if !c.IsValid() || c.IsNil() {
 		return
